@@ -22,4 +22,25 @@ static inline double vf_gmul(double a, double b) { return vf_d2bits(a) <= vf_d2b
 #define F_MUL(s,a,b) ((a)*(b))
 #define F_DIV(s,a,b) ((a)/(b))
 #endif
+#ifdef __CPROVER__
+double __CPROVER_uninterpreted_gremainder(uint64_t, uint64_t); double __CPROVER_uninterpreted_gsqrt(uint64_t); double __CPROVER_uninterpreted_gatan2(uint64_t, uint64_t);
+double __CPROVER_uninterpreted_gsin(uint64_t); double __CPROVER_uninterpreted_gcos(uint64_t); double __CPROVER_uninterpreted_ghypot(uint64_t, uint64_t);
+#define M_remainder(s,x,y) __CPROVER_uninterpreted_gremainder(vf_d2bits(x), vf_d2bits(y))
+#define M_sqrt(s,x) __CPROVER_uninterpreted_gsqrt(vf_d2bits(x))
+#define M_atan2(s,y,x) __CPROVER_uninterpreted_gatan2(vf_d2bits(y), vf_d2bits(x))
+#define M_sin(s,x) __CPROVER_uninterpreted_gsin(vf_d2bits(x))
+#define M_cos(s,x) __CPROVER_uninterpreted_gcos(vf_d2bits(x))
+#define M_hypot(s,x,y) __CPROVER_uninterpreted_ghypot(vf_d2bits(x), vf_d2bits(y))
+#define M_fma(s,a,b,c) F_ADD(s, F_MUL(s,a,b), c)
+#define M_fmuladd(s,a,b,c) F_ADD(s, F_MUL(s,a,b), c)
+#else
+#define M_remainder(s,x,y) remainder(x,y)
+#define M_sqrt(s,x) sqrt(x)
+#define M_atan2(s,y,x) atan2(y,x)
+#define M_sin(s,x) sin(x)
+#define M_cos(s,x) cos(x)
+#define M_hypot(s,x,y) hypot(x,y)
+#define M_fma(s,a,b,c) fma(a,b,c)
+#define M_fmuladd(s,a,b,c) ((a)*(b)+(c))
+#endif
 #endif
